@@ -4,6 +4,6 @@ sid=$1; prop=$2
 cd "$(dirname "$0")/.."
 tools/verify_seed.sh $sid /tmp/wt_$sid 2>&1 | tail -2
 [ -f seeded/$sid/verified.txt ] || exit 1
-tools/mk_meta.py $sid $prop "$3" "$4" "$5" "wave 12: told which mechanisms earlier seeds used"
+tools/mk_meta.py $sid $prop "$3" "$4" "$5" "wave 12-13: told which mechanisms earlier seeds used and pointed at routes, histories, object reuse and value classes"
 git -C /repo worktree remove --force /tmp/wt_$sid
 tools/try_seed.py seeded/$sid
